@@ -147,6 +147,9 @@ func lineSearch(f objective,
     // decrease alpha_j until constraints are satisfied
     for !constraints(alpha_j) {
       alpha_j *= 0.5
+      if alpha_j == 0.0 {
+        return 0.0, fmt.Errorf("line search failed")
+      }
     }
     yj, gj, err = f(alpha_j)
     if err != nil {
